@@ -563,8 +563,8 @@ def gen_violation(rng, kind, typ):
             pre = pre + [(6, 0, 0, 0), (1, 7, 0, 0)]          # size is now exactly 7
             bad, trap = (4, 8 + rng.randrange(0, 50), 0, 0), "NoSpace"
         else:
-            # commit(span.size + b), b >= 2; b = 1 is the recorded known finding and is replayed from the corpus only
-            bad, trap = (8, rng.choice([0, 1, 5, 40]), rng.choice([2, 2, 3, 17]), 0), "NoSpace"
+            # commit(span.size + b), b >= 1 (b = 1 was the defect repaired in /repo 8abaeda; also replayed from the corpus)
+            bad, trap = (8, rng.choice([0, 1, 5, 40]), rng.choice([1, 1, 2, 3, 17]), 0), "NoSpace"
     return n, pre + [bad], trap
 
 
@@ -1027,6 +1027,5 @@ UNPROVED = [
     "hash.hash for pointers, unions, arrays, spans and records with __hash: not modelled; the string hash (hash.long) is modelled and corresponds, its coherence is trivial (byte-wise equality)",
     "hashmap with NaN float keys: == is not reflexive there, outside the theorems' hypotheses (never generated)",
     "allocation failure paths (stringbuilder grow returning false, xspanrealloc raising an error): not modelled",
-    "stringbuilder commit guard at full strength is refuted on the unchanged code (known finding); proved only for n >= span length + 2",
     "independence of the hashmap's observable behaviour from the hash values is not a theorem; the model hashes tokens for non-integer key types and the correspondence shows equal observables",
 ]
